@@ -23,6 +23,11 @@ def asan(shards=16, timeout=3600, name="asan"):
             "wall_timeout_s": timeout}
 
 
+def asan_all(shards=2, timeout=3600):
+    return {"name": "asan-all-monitors", "kind": "asan-all", "profile": "monitor", "tier": "asan", "shards": shards,
+            "wall_timeout_s": timeout}
+
+
 CHECKS = {}
 
 
@@ -152,3 +157,10 @@ check("C16", "exploration",
               "files_random": 1000000, "accepted_corrupted": 100000, "files_disk": 2000, "maps_disk": 2000,
               "maps_wellformed_compared": 500, "map_values_compared": 10000, "map_accessor_calls_ok": 100000,
               "map_accessor_calls_err": 50000, "map_accessors": 30, "errors": 10})
+
+check("C19", "exploration",
+      [native("quick")],
+      [native("thorough"), miri(shards=16), asan_all()],
+      minima={"programs[vec]": 10000, "programs[arrayvec16]": 10000, "programs[arrayvec64]": 10000, "programs[slice]": 10000,
+              "programs[slice-ref]": 10000, "programs[slice-capped]": 10000, "nested_views": 50000, "capped_views": 20000,
+              "reader_fills": 20000, "early_exits": 5000, "prefix_commits_on_failure": 10000})
